@@ -175,6 +175,11 @@ class TranslateNode(Node, TranslatableTag):
         message_context: str | None,
     ) -> str:
         """Get translated text from the given translations object."""
+        if not self.singular_block.text:
+            # An empty message is not a message. The catalog answers a lookup of the
+            # empty string with its header.
+            return ""
+
         if self.plural_block and count is not None:
             if message_context:
                 return translations.npgettext(
